@@ -111,6 +111,18 @@ def run_corpus(ctx, binp):
             name, body = chunks["tcases"][0]
             res = eval_chunk(ctx, header, KINDS[4], name, body, "corpus_" + re.sub(r"\W", "_", w["id"]))
         names.append(w["id"])
+        # optional expectations on what the reader sees, repeated (the defect was nondeterministic)
+        if "expect_requirements" in w:
+            counts = set()
+            for _ in range(int(w.get("repeat", 1))):
+                rc, o = vlib.sh([binp, "-replay", f], timeout=300)
+                counts.add(len(json.loads(o[:o.index("coq-case:")])["requirements_before"] or []))
+            if counts != {w["expect_requirements"]}:
+                ctx.violation({"kind": "spec-failure", "regression_corpus": w["id"], "what": w.get("what"),
+                               "case": {"universe": w["universe"], "opts": w["opts"]},
+                               "requirements_read": sorted(counts), "expected": w["expect_requirements"],
+                               "explanation": "a repaired defect is back: the manifest reader does not return every requirement of this file"})
+                continue
         if res["spec_bad"]:
             ctx.violation({"kind": "spec-failure", "regression_corpus": w["id"], "what": w.get("what"),
                            "case": {"universe": w["universe"], "opts": w["opts"]},
